@@ -24,6 +24,10 @@ func Gen(t *rapid.T) *Case {
 			if rapid.IntRange(0, 4).Draw(t, "asyncCanceller") != 0 {
 				h.Async = false
 			}
+			if rapid.IntRange(0, 2).Draw(t, "filterCancels") == 0 {
+				// the cancellation comes from the handler's filter predicate
+				h.Cancels, h.FilterCancels = false, true
+			}
 		}
 		if !h.Async {
 			h.Nest = rapid.IntRange(0, 5).Draw(t, "nest") == 0
